@@ -229,7 +229,10 @@ def enter (s : St) (k : Nat) (inv : Inv) : St :=
   if inv.kind = .runCode then
     let g := (s.loaded.lookup (codeOf k inv)).getD (genOf s (codeOf k inv))
     { s with cur := g, loaded := (codeOf k inv, g) :: s.loaded }
-  else { s with cur := 0 }
+  else
+    -- `Run` resumes the main code: what the previous runs left on the operand stack is dropped first
+    -- (fix: drop the previous result from the stack when Run resumes the main code); `Call` keeps it
+    { s with cur := 0, sp := if inv.kind = .run then -1 else s.sp }
 
 /-- the script reaches its leaf: `depth+1` frames are active, the appends to the host global
     are done, the host callback cancels what it was told to cancel (other contexts and,
@@ -259,16 +262,19 @@ def modEnds (s : St) (inv : Inv) : Bool :=
   modRuns s inv && inv.mfail &&
     (ownCancel inv || inv.beh == .err || inv.beh == .panic || inv.beh == .overflow)
 
-/-- the slot that executing a module's top-level code leaves in the IMPORTING frame
-    (`importModule`'s `resumeFrame` carries the module frame's top of stack down as a "frame
-    result").  The importing function's own return (also the error return since the `fix:`
-    commit in `callFunction`) drops it; an ending that skips that return - a Go panic, or the
-    cut-short "success" - leaves it on the stack. -/
-def modResidue (s : St) (inv : Inv) (o : Outcome) : Int :=
+/-- the slot that executing a module's top-level code USED to leave in the importing frame
+    (`importModule`'s `resumeFrame` carried the module frame's top of stack down as a "frame
+    result"; an ending that skipped the importing function's return - a Go panic, or the
+    cut-short "success" - left it on the stack).  Repaired in risor (`fix: drop what a module's
+    code leaves on the stack when it is imported`): `importModule` now pops down to the importer's
+    stack pointer on every way out, so nothing is left.  `preFixModResidue` keeps the old amount. -/
+def preFixModResidue (s : St) (inv : Inv) (o : Outcome) : Int :=
   if modRuns s inv then
     (match o with
      | .okHook => 1 | .errPanic => 1 | .errOverflow => 1 | _ => 0)
   else 0
+
+def modResidue (_s : St) (_inv : Inv) (_o : Outcome) : Int := 0
 
 /-- the run ends inside the module's top-level code (the module's host callback cancels the
     invocation's own context, or the module code fails): `importModule` returns before
